@@ -10,9 +10,10 @@ from vf.spec import AnyT, ObjectT, Program, Unspecified, canon
 PROP = "C08"
 SHARDS = {"quick": 8, "thorough": 16}
 TIME_CAP = {"quick": 70, "thorough": 900}
-REQUIRED = ["deser_pairs", "deser_no_copy_pairs", "deser_ctor_pairs", "deser_method_vs_function", "deser_pass_through", "alias_walks", "purity_checks",
-            "ser_pairs", "ser_no_copy_pairs", "ser_check_type_pairs", "ser_pass_through_pairs", "ser_alias_walks", "programs",
-            "node:ListCheckOnlyMethod", "node:ListMethod", "node:MappingCheckOnly", "node:MappingMethod", "node:SimpleObjectMethod", "node:ObjectMethod", "node:FieldsConstructor"]
+REQUIRED = ["deser_pairs", "deser_no_copy_pairs", "deser_ctor_pairs", "deser_method_vs_function", "deser_pass_through", "alias_walks", "purity_checks", "ser_pairs", "ser_no_copy_pairs", "ser_check_type_pairs", "ser_pass_through_pairs", "ser_alias_walks", "programs"]
+# compiled-tree node classes this workload is expected to reach: reported as coverage gaps when missing, never a verdict
+# (a renamed internal class must not turn into an alarm)
+EXPECTED_NODES = ["node:ListCheckOnlyMethod", "node:ListMethod", "node:MappingCheckOnly", "node:MappingMethod", "node:SimpleObjectMethod", "node:ObjectMethod", "node:FieldsConstructor"]
 RULE = ("C01 program space (programs mixing copying and check-only sub-trees) x atoms/valid/mutant data (valid and invalid: errors must be identical) x "
         "{no_copy, override_dataclass_constructors, function vs precomputed method, deserialization pass_through}; values obtained by deserializing valid data x "
         "{no_copy, check_type, function vs method, all 2^5 PassThroughOptions flag sets (+ types sets) completed with serialization_default}. "
